@@ -67,6 +67,10 @@ def _case(draw, tier):
     bs = 1 if name.startswith("Parallel") else draw(
         st.sampled_from([1, 1, 2, 3, 5]))
     opts = {"gamma": draw(st.sampled_from([0.3, 1.0, 3.0]))}
+    if ent["model"] and ent["model"][0] == "clf" and \
+            ent["model"][1] == "pwc" and ent["cls"] in poolreg.ANY_CLF:
+        opts["model_key"] = draw(st.sampled_from(
+            ["pwc", "pwc", "gnb", "lr", "tree_clf", "pwc_default"]))
     if poolreg.is_wrapper(name):
         opts["max_candidates_int"] = draw(st.integers(1, 6))
         opts["max_candidates_float"] = draw(st.sampled_from(
